@@ -43,8 +43,18 @@ def reset_global_state():
     _track.TRACK_GRAPH = True
     _mem.MEM_GUARD = True
     for m in (mg.no_autodiff, mg.mem_guard_off, mg.mem_guard_on):
-        m._depth = 0
-        m._depth_tracker.clear()
+        # (bookkeeping of the scope objects: private, so tolerate other layouts -- the switches themselves are reset above)
+        try:
+            m._depth = 0
+        except AttributeError:
+            pass
+        for attr in ("_depth_tracker", "_saved", "_stack", "_states"):
+            c = getattr(m, attr, None)
+            if hasattr(c, "clear"):
+                try:
+                    c.clear()
+                except Exception:
+                    pass
     _mem._array_counter.clear()
     _mem._array_tracker.clear()
     _mem._views_waiting_for_unlock.clear()
